@@ -67,6 +67,8 @@ static inline struct move_iterator_pE *L0_move_iterator_pE__op_inc(struct move_i
 static inline int64_t L0_distance__move_iterator_pE_move_iterator_pE(struct move_iterator_pE a, struct move_iterator_pE b) { return L0_PDIFF(b.current, a.current); }
 static inline E *L0_copy_n__move_iterator_pE(struct move_iterator_pE f, int64_t cnt, E *d) { uint64_t n = L0_COUNT(cnt); for (uint64_t i = 0; i < n; i++) L0_E_move_assign(d + i, f.current + i); return L0_PADD(d, +, n); }
 static inline E *L0_uninitialized_copy_n__move_iterator_pE(struct move_iterator_pE f, int64_t cnt, E *d) { return l0_uninit_move_n(f.current, cnt, d); }
+static inline E *L0_copy__move_iterator_pE(struct move_iterator_pE f, struct move_iterator_pE l, E *d) { uint64_t n = L0_COUNT(L0_PDIFF(l.current, f.current)); for (uint64_t i = 0; i < n; i++) L0_E_move_assign(d + i, f.current + i); return L0_PADD(d, +, n); }
+static inline E *L0_uninitialized_copy__move_iterator_pE(struct move_iterator_pE f, struct move_iterator_pE l, E *d) { return l0_uninit_move_n(f.current, L0_PDIFF(l.current, f.current), d); }
 #endif
 #ifdef HAVE_optional_E
 static inline void L0_optional_E__ctor(struct optional_E *o) { o->_engaged = 0; }
